@@ -80,7 +80,7 @@ structure Cfg where
 deriving Repr, DecidableEq
 
 /-- the code under test today (with the lead's `fix:` commits 77aa780 and 59b9e87; neither fix-1 nor fix-5) -/
-def Cfg.current : Cfg := { emptyOk := false, countUncached := false }
+def Cfg.current : Cfg := { emptyOk := true, countUncached := true }
 
 /-- `f_dict`, `old_f_dict`, `do_cache` -/
 structure St where
